@@ -32,3 +32,15 @@ Lemma c11_tilde : render (fun _ => [116]) (Remove (mkMeta tilde_path 1 1 1 true 
                   = [[114; 109; 32; 39; 47; 120; 47; 97; 61; 126; 39]] /\
                   bash_words [114; 109; 32; 39; 47; 120; 47; 97; 61; 126; 39] = Some [W_rm; path_bytes tilde_path].
 Proof. vm_compute. split; reflexivity. Qed.
+
+(* the hypotheses of C11_same_commands hold for the link command of the example state *)
+Ltac comp_ok_tac := split; [discriminate|repeat (apply Forall_cons; [repeat split; first [discriminate | reflexivity]|]); apply Forall_nil].
+Ltac wf_path_tac := eexists; split; [reflexivity|split; [discriminate|repeat (apply Forall_cons; [comp_ok_tac|]); apply Forall_nil]].
+Lemma c11_ex_hyps sl : printable (ex_cmd OpHardLink) /\ cmd_paths_wf (sfx w_env) (ex_cmd OpHardLink) /\
+  cmd_ok sl ex_s (fcmd_of w_env (ex_cmd OpHardLink)).
+Proof.
+  split; [exact I|]. split.
+  - split; [|split]; cbn; wf_path_tac.
+  - pose proof (clause_plan w_ax w_env sl OpHardLink (w_cfg []) w_sm ex_s ex_r (ex_run_ok sl OpHardLink eq_refl)) as (HF & _).
+    rewrite ex_run_cmds in HF. inversion HF; subst. assumption.
+Qed.
